@@ -1,6 +1,96 @@
 import TabulaModel.Util
-namespace Tabula.C13H
+import TabulaModel.Model.Split
+import TabulaModel.Model.Overlap
+/-!
+Line protocol of C13 (all byte strings lower-case hex, `-` = empty):
 
-def handle (_op : String) (_args : List String) : String := "bad-op"
+* `c13.split <unit>:<max>:<tpcNum>/<tpcDen>:<sem> <text>` → `[p1,p2,…]`
+  (`SplitToSize(text, nil)`; unit 0 characters, 1 tokens, 2 words, 3 sentences, 4 paragraphs)
+* `c13.doc <same cfg> <para1,para2,…>` → `[t1,t2,…]` (chunk texts of `ChunkDocumentWithConfig`)
+* `c13.ovl <strategy>:<size>:<min>:<max>:<preserveWords>:<ctx> <classes> <titles> <chunks>`
+  → `[has/prefix/text,…]` (`ApplyOverlapToChunks`; strategy 0 none, 1 character, 2 sentence,
+  3 paragraph; classes = `cp.flags.lower,…` for every non-ASCII character, flags 1 upper,
+  2 letter, 4 digit, 8 space; `-` if none)
+* `c13.cwo <overlapSize>:<sentences>:<ctx> <classes> <titles> <chunks>` → same, with the
+  overlap configuration derived as `ChunkWithOverlapEnabled` derives it.
+-/
+namespace Tabula.C13H
+open Tabula Tabula.Split Tabula.Overlap
+
+def toStr (b : Bytes) : Str := b.map (·.toNat)
+def ofStr (s : Str) : Bytes := s.map UInt8.ofNat
+def hexS (s : Str) : String := hex (ofStr s)
+def unhexS (s : String) : Option Str := (unhex s).map toStr
+
+def parseHexList (s : String) : Option (List Str) :=
+  if s == "" then some [] else (s.splitOn ",").mapM unhexS
+
+def dumpList (ps : List Str) : String := "[" ++ ",".intercalate (ps.map hexS) ++ "]"
+
+def unitOf : Nat → Option SizeUnit
+  | 0 => some .characters | 1 => some .tokens | 2 => some .words
+  | 3 => some .sentences | 4 => some .paragraphs | _ => none
+
+def parseCfg (s : String) : Option SizeConfig :=
+  match s.splitOn ":" with
+  | [u, m, tpc, sem] =>
+    match tpc.splitOn "/" with
+    | [n, d] => do
+      let u ← u.toNat? >>= unitOf
+      let m ← m.toNat?
+      let n ← n.toInt?
+      let d ← d.toNat?
+      pure { maxValue := m, maxUnit := u, tpcNum := n, tpcDen := d, sem := sem == "1" }
+    | _ => none
+  | _ => none
+
+def parseClass (s : String) : Option (Nat × RuneClass) :=
+  match s.splitOn "." with
+  | [cp, f, lo] => do
+    let cp ← cp.toNat?
+    let f ← f.toNat?
+    let lo ← lo.toNat?
+    pure (cp, { upper := f % 2 == 1, letter := f / 2 % 2 == 1, digit := f / 4 % 2 == 1,
+                space := f / 8 % 2 == 1, lower := lo })
+  | _ => none
+
+def parseClasses (s : String) : Option (List (Nat × RuneClass)) :=
+  if s == "-" then some [] else (s.splitOn ",").mapM parseClass
+
+def dumpOvl (rs : List OverlapOut) : String :=
+  "[" ++ ",".intercalate (rs.map fun r =>
+    s!"{if r.has then 1 else 0}/{hexS r.pref}/{hexS r.text}") ++ "]"
+
+def parseOvlCfg (s : String) : Option OverlapConfig :=
+  match (s.splitOn ":").mapM String.toNat? with
+  | some [st, size, mn, mx, pw, ctx] =>
+    some { strategy := st, size := size, minOverlap := mn, maxOverlap := mx,
+           preserveWords := pw == 1, includeHeadingContext := ctx == 1 }
+  | _ => none
+
+def handle (op : String) (args : List String) : String :=
+  match op, args with
+  | "c13.split", [cfg, text] =>
+    match parseCfg cfg, unhexS text with
+    | some c, some t => dumpList (splitToSize c t [])
+    | _, _ => "bad-op"
+  | "c13.doc", [cfg] =>
+    match parseCfg cfg with
+    | some c => dumpList (docChunks c [])
+    | _ => "bad-op"
+  | "c13.doc", [cfg, paras] =>
+    match parseCfg cfg, parseHexList paras with
+    | some c, some ps => dumpList (docChunks c ps)
+    | _, _ => "bad-op"
+  | "c13.ovl", [cfg, classes, titles, chunks] =>
+    match parseOvlCfg cfg, parseClasses classes, parseHexList titles, parseHexList chunks with
+    | some c, some cl, some ts, some cs => dumpOvl (applyOverlapToChunks cl c cs ts)
+    | _, _, _, _ => "bad-op"
+  | "c13.cwo", [cfg, classes, titles, chunks] =>
+    match (cfg.splitOn ":").mapM String.toNat?, parseClasses classes, parseHexList titles, parseHexList chunks with
+    | some [size, sent, ctx], some cl, some ts, some cs =>
+      dumpOvl (applyOverlapToChunks cl (chunkerOverlapConfig size (sent == 1) (ctx == 1)) cs ts)
+    | _, _, _, _ => "bad-op"
+  | _, _ => "bad-op"
 
 end Tabula.C13H
